@@ -467,7 +467,8 @@ namespace xsimd
             template <typename ITy0, typename ITy1, typename... ITys>
             constexpr bool is_zip_lo(size_t bsize, ITy0 index0, ITy1 index1, ITys... indices)
             {
-                return index0 == (bsize - (sizeof...(indices) + 2)) && index1 == (2 * bsize - (sizeof...(indices) + 2)) && is_zip_lo(bsize, indices...);
+                // pair number p = (bsize - remaining - 2) / 2 must be (x[p], y[p])
+                return index0 == (bsize - (sizeof...(indices) + 2)) / 2 && index1 == bsize + (bsize - (sizeof...(indices) + 2)) / 2 && is_zip_lo(bsize, indices...);
             }
 
             constexpr bool is_zip_hi(size_t)
@@ -484,7 +485,8 @@ namespace xsimd
             template <typename ITy0, typename ITy1, typename... ITys>
             constexpr bool is_zip_hi(size_t bsize, ITy0 index0, ITy1 index1, ITys... indices)
             {
-                return index0 == (bsize / 2 + bsize - (sizeof...(indices) + 2)) && index1 == (bsize / 2 + 2 * bsize - (sizeof...(indices) + 2)) && is_zip_hi(bsize, indices...);
+                // pair number p must be (x[bsize / 2 + p], y[bsize / 2 + p])
+                return index0 == bsize / 2 + (bsize - (sizeof...(indices) + 2)) / 2 && index1 == bsize + bsize / 2 + (bsize - (sizeof...(indices) + 2)) / 2 && is_zip_hi(bsize, indices...);
             }
 
             constexpr bool is_select(size_t)
